@@ -263,6 +263,7 @@ pub fn op_state(a: &[&str]) -> String {
     }
 }
 
+fn state_size<T: Pod + ZkProofData<U>, U: Pod>() -> String { format!("{}", std::mem::size_of::<ProofContextState<U>>()) }
 fn sizes<T: Pod + ZkProofData<U>, U: Pod>() -> String { format!("{}:{}", std::mem::size_of::<T>(), std::mem::size_of::<U>()) }
 fn data_size(i: usize) -> usize { let s: String = with_proof_types!(i, sizes,); s.split(':').next().and_then(|x| x.parse().ok()).unwrap_or(0) }
 fn ctx_size(i: usize) -> usize { let s: String = with_proof_types!(i, sizes,); s.split(':').nth(1).and_then(|x| x.parse().ok()).unwrap_or(0) }
@@ -316,7 +317,11 @@ pub fn consts_json() -> String {
         let zeros = vec![0u8; 2048];
         let h: String = with_proof_types!(i, state_encode, &a1, proof_type_by_index(i).unwrap(), &zeros[..ctx_size(i)]);
         let b = unhex(&h).unwrap_or_default();
-        st.push(format!("[{},{},{}]", i, b.len(), if b.len() > 32 { b[32] as i32 } else { -1 }));
+        // also: the in-memory size of the typed state (what `try_from_bytes` demands) and a read-back of the
+        // encoded bytes through the typed reader (an account of the declared size must be readable)
+        let sz: String = with_proof_types!(i, state_size,);
+        let back: String = with_proof_types!(i, state_decode, &b);
+        st.push(format!("[{},{},{},{},{}]", i, b.len(), if b.len() > 32 { b[32] as i32 } else { -1 }, sz, if back.starts_with("ok:") { 1 } else { 0 }));
     }
     format!(
         "{{\"instructions\":[{}],\"proof_types\":[{}],\"declared\":[{}],\"meta_size\":{},\"program_id\":\"{}\",\"encoded\":[{}],\"encoded_states\":[{}]}}",
